@@ -443,8 +443,8 @@ class Log(registering.StoriedRegistrar):
             self.paths = []  # remove stale rotate paths
 
         self.close()  #innocuous to call close() on unopened file
-        if os.path.exists(self.path):
-            self.first = False
+        if os.path.exists(self.path) and os.path.getsize(self.path):
+            self.first = False  # not empty so already has header
 
         try:
             self.file = ocfn(self.path, 'a+')  # append pick up where left off
